@@ -158,18 +158,21 @@ fn seed_ops(conn: i64, ops: &mut Vec<Vec<Tok>>, r: &mut Rng, used: &mut Vec<Vec<
         if q.chance(3, 4) { ops.push(cmd_op(conn, &[b"SET", &k(b"k1"), b"10"])); }
         if q.chance(1, 2) { ops.push(cmd_op(conn, &[b"SET", &k(b"str1"), b"hello", b"EX", b"1000"])); }
         if q.chance(1, 3) { ops.push(cmd_op(conn, &[b"SET", &k(b"k2"), b"9007199254740993"])); }
+        if q.chance(1, 2) { ops.push(cmd_op(conn, &[b"XADD", &k(b"x1"), b"1-1", b"f", b"v"])); ops.push(cmd_op(conn, &[b"XADD", &k(b"x1"), b"2-5", b"g", b"w"])); }
         if p == PB { *r = q; }
     }
-    for k in [&b"l1"[..], b"s1", b"s2", b"h1", b"k1", b"str1", b"k2"] { if !used.contains(&k.to_vec()) { used.push(k.to_vec()); } }
+    for k in [&b"l1"[..], b"s1", b"s2", b"h1", b"k1", b"str1", b"k2", b"x1"] { if !used.contains(&k.to_vec()) { used.push(k.to_vec()); } }
 }
 
 fn dump_pair(conn: i64, ops: &mut Vec<Vec<Tok>>, used: &[Vec<u8>], db0: bool) {
     for k in used {
-        for probe in [&b"TYPE"[..], b"GET", b"PTTL", b"LRANGE", b"SMEMBERS", b"HGETALL"] {
+        for probe in [&b"TYPE"[..], b"GET", b"PTTL", b"LRANGE", b"SMEMBERS", b"HGETALL", b"XRANGE"] {
             ops.push(note_op(&[b"dump"]));
             for p in [PA, PB] {
                 let kk = pref(p, k);
-                if probe == b"LRANGE" { ops.push(cmd_op(conn, &[probe, &kk, b"0", b"-1"])); } else { ops.push(cmd_op(conn, &[probe, &kk])); }
+                if probe == b"LRANGE" { ops.push(cmd_op(conn, &[probe, &kk, b"0", b"-1"])); }
+                else if probe == b"XRANGE" { ops.push(cmd_op(conn, &[probe, &kk, b"-", b"+"])); }
+                else { ops.push(cmd_op(conn, &[probe, &kk])); }
             }
         }
     }
@@ -178,7 +181,29 @@ fn dump_pair(conn: i64, ops: &mut Vec<Vec<Tok>>, used: &[Vec<u8>], db0: bool) {
     ops.push(cmd_op(conn, &[b"DBSIZE"]));
 }
 
+const SIDS: &[&[u8]] = &[b"1-1", b"2-0", b"2-5", b"5-3", b"0-1", b"3", b"abc", b"18446744073709551615-1", b"7-18446744073709551615", b"0-0", b"9-9", b"-", b"+", b"4-x"];
+const SCOUNTS: &[&[u8]] = &[b"0", b"1", b"2", b"10", b"+2", b"x", b"-1", b"18446744073709551615"];
+/// stream commands of the executor's catalogue (explicit IDs only: `XADD key *` needs the clock oracle)
+fn stream_cmd(r: &mut Rng) -> Vec<Vec<u8>> {
+    let v = |x: &[u8]| x.to_vec();
+    let k = v(*r.pick(&[&b"x1"[..], b"x1", b"x2", b"k1", b"nokey"]));
+    let id = |r: &mut Rng| v(*r.pick(SIDS));
+    match r.below(14) {
+        0..=4 => vec![v(b"XADD"), k, id(r), v(*r.pick(&[&b"f"[..], b"g", b""])), v(*r.pick(c01::VALUES))],
+        5 => match r.below(4) { 0 => vec![v(b"XADD"), k, id(r)], 1 => vec![v(b"XADD"), k, id(r), v(b"f")], 2 => vec![v(b"XADD"), k, v(b"MAXLEN"), v(b"2"), id(r), v(b"f"), v(b"v")], _ => vec![v(b"xadd"), k, id(r), v(b"f"), v(b"v"), v(b"g")] },
+        6 => vec![v(b"XLEN"), k],
+        7 | 8 => { let mut c = vec![v(if r.chance(1, 2) { b"XRANGE" } else { b"XREVRANGE" }), k, id(r), id(r)];
+                   match r.below(6) { 0 | 1 => { c.push(v(b"COUNT")); c.push(v(*r.pick(SCOUNTS))); } 2 => c.push(v(b"COUNT")), 3 => { c.push(v(b"count")); c.push(v(b"1")); c.push(v(b"extra")); } _ => {} } c }
+        9 => vec![v(b"XRANGE"), k, v(b"-"), v(b"+")],
+        10 => { let mut c = vec![v(b"XDEL"), k]; for _ in 0..(1 + r.below(2)) { c.push(id(r)); } c }
+        11 | 12 => match r.below(5) { 0 => vec![v(b"XTRIM"), k, v(b"MAXLEN"), v(*r.pick(SCOUNTS))], 1 => vec![v(b"XTRIM"), k, v(b"MAXLEN"), v(b"~"), v(b"1")],
+                                      2 => vec![v(b"XTRIM"), k, v(b"maxlen"), v(b"="), v(b"2")], 3 => vec![v(b"XTRIM"), k, v(b"MINID"), v(b"1")], _ => vec![v(b"XTRIM"), k, v(b"MAXLEN"), v(b"1"), v(b"extra")] },
+        _ => vec![v(b"XDEL"), k],
+    }
+}
+
 fn gen_direct(r: &mut Rng, g3: &mut c03::Gen) -> Vec<Vec<u8>> {
+    if r.chance(1, 6) { return stream_cmd(r); }
     if r.chance(1, 2) { c01::gen_cmd(r) } else { g3.r = r.fork(); g3.cmd() }
 }
 
@@ -448,6 +473,9 @@ fn command_class(c: &[Vec<u8>]) -> Option<&'static str> {
         b"RENAMENX" => Some("lua-renamenx-is-rename"),
         b"PING" => Some("lua-ping-arity"),
         b"DBSIZE" | b"FLUSHDB" | b"FLUSHALL" | b"RANDOMKEY" => Some("lua-arity-unchecked"),
+        b"XRANGE" | b"XREVRANGE" if c.len() != 4 && c.len() != 6 => Some("lua-stream-options"),
+        b"XTRIM" if c.len() != 4 => Some("lua-stream-options"),
+        b"XADD" => Some("lua-stream-options"),
         _ => None,
     }
 }
@@ -459,7 +487,7 @@ fn std_view(v: &V) -> V {
 fn sort_bulks(v: V) -> V {
     match v { V::Array(mut l) => { l.sort_by(|a, b| match (a, b) { (V::Bulk(x), V::Bulk(y)) => x.cmp(y), _ => std::cmp::Ordering::Equal }); V::Array(l) } x => x }
 }
-const STATE_CLASSES: &[&str] = &["lua-lossy", "lua-set-options", "lua-expire-nonpositive", "lua-renamenx-is-rename"];
+const STATE_CLASSES: &[&str] = &["lua-lossy", "lua-set-options", "lua-expire-nonpositive", "lua-renamenx-is-rename", "lua-stream-options"];
 
 pub fn judge(c: &Case, outs: &[Vec<Tok>]) -> Vec<String> {
     let mut fails = vec![];
